@@ -716,6 +716,18 @@ func (ls *LanceroSource) launchLanceroReader() {
 				}
 				buffers = append(buffers, bytesToRawType(b))
 				bframes := len(b) / dev.frameSize
+				// Bytes lost in the middle of b shift all the frames behind them. The first two frame starts were
+				// located by FindFrameBits; every later frame must also begin with a first-row word (frame bit set)
+				// that follows a last-row word (frame bit clear). Use only the frames in front of the first one
+				// that does not: the next read starts at the damaged frame, re-aligns and reports the loss.
+				for k := 2; k <= bframes; k++ {
+					i := k*dev.frameSize + lanceroFBOffset
+					if i >= len(b) || b[i]&1 == 0 || b[i-4]&1 == 1 {
+						timeFix = timeFix.Add(-time.Duration(bframes-(k-1)) * ls.samplePeriod) // time of the last frame used
+						bframes = k - 1
+						break
+					}
+				}
 				if bframes < framesUsed { // for multiple cards, take data amount equal to minimum across all cards
 					framesUsed = bframes
 					lastSampleTime = timeFix
